@@ -6,6 +6,7 @@ package xplore
 
 import (
 	"fmt"
+	"time"
 )
 
 // Truncated is panicked out of a body when an execution exceeds its horizon.
@@ -90,6 +91,10 @@ type Explorer struct {
 	Bound    int
 	Horizon  int // max choice points per execution (default 10000)
 	MaxExecs int // 0 = unlimited; hitting it sets Stats.Capped
+	// Deadline: no execution is started after it (zero = none); passing it sets
+	// Stats.Capped. A budget, never an oracle: what was explored is reported,
+	// the run is not called exhaustive.
+	Deadline time.Time
 	Replay   int // number of leading executions replayed twice for the determinism proof
 	Stats    Stats
 	// OnDiverge is called when the determinism replay of an execution differs.
@@ -129,6 +134,10 @@ func (e *Explorer) Explore(body func(*Ctx) string, visit func(Result)) {
 
 func (e *Explorer) explore(prefix []int, labels []string, used int, body func(*Ctx) string, visit func(Result)) {
 	if e.MaxExecs > 0 && e.Stats.Executions >= e.MaxExecs {
+		e.Stats.Capped = true
+		return
+	}
+	if !e.Deadline.IsZero() && e.Stats.Executions > 0 && time.Now().After(e.Deadline) {
 		e.Stats.Capped = true
 		return
 	}
@@ -234,7 +243,7 @@ func (e *Explorer) ExploreParallel(workers int, body func(*Ctx) string, visit fu
 	}
 	for w := 0; w < workers; w++ {
 		go func() {
-			sub := &Explorer{Bound: e.Bound, Horizon: e.Horizon, MaxExecs: perWorkerCap, OnDiverge: e.OnDiverge}
+			sub := &Explorer{Bound: e.Bound, Horizon: e.Horizon, MaxExecs: perWorkerCap, Deadline: e.Deadline, OnDiverge: e.OnDiverge}
 			for b := range next {
 				sub.explore(b.prefix, b.labels, b.cost, body, visit)
 			}
